@@ -66,6 +66,7 @@ def gen(rng, prop, job):
 
 def make_jobs(prop, tier, seed):
     jobs = plug.std_jobs(prop, tier, seed, "m5", n_quick=16, per_quick=6, schedules=4)
+    jobs.extend(plug.line_jobs(prop, tier, seed))
     if prop == "C12":
         for j in range(4 if tier == "quick" else 24):
             jobs.append({"kind": "explore", "side": "batch", "prop": prop, "seed": seed * 15485863 + j, "scenarios": 8, "schedules": 4, "no_driver": True})
